@@ -26,7 +26,7 @@ def main() -> int:
     if len(sys.argv) > 1:
         names = [n for n in names if any(n.startswith(a) for a in sys.argv[1:] if not a.startswith("-"))] if any(not a.startswith("-") for a in sys.argv[1:]) else names
     rows = []
-    with Pool(14) as pool:
+    with Pool(14, maxtasksperchild=1) as pool:
         for row in pool.imap_unordered(one, names, chunksize=1):
             rows.append(row)
             if "--progress" in sys.argv:
